@@ -294,6 +294,25 @@ def check(tier: str) -> int:
         bad = check_expr(a)
         if bad:
             run.violation("history:after-deep-expression:value", bad, {"expr": a})
+    # ENVIRONMENT: with little interpreter stack left (a lowered recursion limit, a deep caller) a long chain may be refused
+    # with RecursionError -- but a signature that IS issued must still be the same for commuted forms
+    import sys as _sys
+    terms = [f"x * {i}" if i % 3 else f"(y + {i})" for i in range(60)]
+    fwd, rev = " + ".join(terms), " + ".join(reversed(terms))
+    for limit in (None, 220, 140):
+        old_limit = _sys.getrecursionlimit()
+        try:
+            if limit:
+                _sys.setrecursionlimit(limit)
+            try:
+                sa, sb = sig(fwd), sig(rev)
+            except RecursionError:
+                sa = sb = None
+        finally:
+            _sys.setrecursionlimit(old_limit)
+        run.evaluations += 1
+        if sa != sb:
+            run.violation("environment:little-stack", f"with the recursion limit at {limit or old_limit} a 60-term sum and its reversal get different signatures", {"expr": fwd, "other": rev})
     run.extra["trees_exhaustive"] = n
     run.extra["sampled_beyond_bound"] = m
     run.sample({"tree": "((x + y) * (y + x))", "signature": sig("((x + y) * (y + x))")})
